@@ -103,18 +103,19 @@ def leaf_expectation(case, ctx, ln):
     """[(writer kind, 1-based line)] in pre-order for a leaf spelling placed in a context"""
     k = LEAF_KIND[case[0]]
     n = len(case[1])
+    lead = case[3].get('lead', 0)       # blank (white-space-only) lines written before the block proper
     if ctx == 'alone':
-        return [(k, 1)]
+        return [(k, 1 + lead)]
     if ctx == 'then-paragraph':
-        return [(k, 1), ('para', n + 2)]
+        return [(k, 1 + lead), ('para', n + 2)]
     if ctx == 'then-paragraph-directly':
-        return [(k, 1), ('para', n + 1)]
+        return [(k, 1 + lead), ('para', n + 1)]
     if ctx == 'after-paragraph':
-        return [('para', 1), (k, 3)]
+        return [('para', 1), (k, 3 + lead)]
     if ctx == 'in-quote':
-        return [('quote', 1), (k, 1)]
+        return [('quote', 1), (k, 1 + lead)]
     if ctx == 'in-list-item':
-        return [('list', 1), ('item', 1), ('para', 1), (k, 3)]
+        return [('list', 1), ('item', 1), ('para', 1), (k, 3 + lead)]
     raise KeyError(ctx)
 
 
